@@ -34,6 +34,7 @@ var paths = []string{"/", "/a", "/a/b", "/a//b", "/a/./b", "/a/../b", "/..", "/.
 var connectTargets = []string{"HOST", "HOST:", "localhost", "localhost:443", "127.0.0.1:1", "[::1]:443", "[::1]", "::1", ":443", "", "a:b:c", "host:99999", "host:-1", "ex ample:443", strings.Repeat("h", 300) + ":443", "[fe80::1%25eth0]:443", "1.2.3.4.5:443", "xn--nxasmq6b.example:443", "EXAMPLE.com.:443"}
 
 type tcase struct {
+	Prev   string   `json:"previous_on_same_tunnel,omitempty"`
 	Stream string   `json:"stream"`
 	Desc   string   `json:"desc"`
 	Raw    string   `json:"raw,omitempty"`
@@ -249,8 +250,10 @@ func main() {
 				return e2elib.NewAnswer(200, []byte("0123456789"), "Cache-Control: max-age=60", `ETag: "v1"`)
 			})
 			var tun *e2elib.Conn
+			prev := ""
 			for i := 0; i < nTun/4; i++ {
 				if tun == nil || r.Chance(30) {
+					prev = ""
 					if tun != nil {
 						tun.Close()
 					}
@@ -279,7 +282,8 @@ func main() {
 					body = []byte("bb")
 				}
 				raw := envT.TunnelRequest(m, p, hs, body)
-				tc := tcase{Stream: "tunnel", Desc: backend, Raw: string(raw)}
+				tc := tcase{Stream: "tunnel", Desc: backend, Raw: string(raw), Prev: prev}
+				prev = string(raw)
 				if err := tun.Send(raw, 5*time.Second); err != nil {
 					check(tc, nil, err)
 					tun.Close()
@@ -288,7 +292,7 @@ func main() {
 				}
 				resp, err := tun.Read(m, 8*time.Second)
 				check(tc, resp, err)
-				if err != nil || resp.BodyErr != "" || strings.EqualFold(resp.Header.Get("Connection"), "close") || resp.Framing == "close" {
+				if err != nil || resp.BodyErr != "" || resp.Close || resp.Framing == "close" {
 					tun.Close()
 					tun = nil
 				}
